@@ -604,9 +604,13 @@ def check(scn, k, fw, hist, state, lost, DeviceError, hostmsgs, ackhist, relaxed
     if not loss:
         # ---- (d) disconnect(wait=True): everything invoked was received and answered
         upto = []
+        never_sent = {c["i"] for c in calls if c["kind"] == "raise" and c["i"] not in rx_of
+                      and type(c["exc"]).__name__ in ("DeviceConnectionError", "DeviceTimeoutError")}
         for h in hist:
             if h[0] == "call":
-                upto.append(h[1])
+                # a write() whose implicit connect() failed never queued its statement
+                if h[1] not in never_sent:
+                    upto.append(h[1])
             elif h[0] == "disc-ret":
                 missing = []
                 for i in upto:
@@ -630,6 +634,12 @@ def check(scn, k, fw, hist, state, lost, DeviceError, hostmsgs, ackhist, relaxed
             # a connect() that never completes is outside what C16 states (DESIGN.md 6)
             if not relaxed:
                 k.probe("obs.connect_hang:" + k.abort_reason)
+        elif k.abort_reason and state["done"]:
+            # every operation of the caller completed; a thread that outlives the session (e.g. a
+            # send thread restarted by a start-up print thread that disconnect() did not wait
+            # for) is not part of any clause of C16
+            if not relaxed:
+                k.probe("obs.thread_outlives_session:" + k.abort_reason)
         elif k.abort_reason:
             V("liveness", reason=k.abort_reason)
         elif not state["done"]:
